@@ -24,6 +24,26 @@ import (
 
 const c10MaxU64 = ^uint64(0)
 
+// c10V reports a violation but keeps at most two witnesses per signature
+// (verifkit keeps only the first ten violations of a unit; a defect that fires
+// on most cases must not crowd out other signatures). Every occurrence is
+// counted under "viol.<sig>".
+var (
+	c10VMu   sync.Mutex
+	c10VSeen = map[string]int{}
+)
+
+func c10V(r *verifkit.Run, sig string, witness any) {
+	c10VMu.Lock()
+	c10VSeen[sig]++
+	n := c10VSeen[sig]
+	c10VMu.Unlock()
+	r.Count("viol."+sig, 1)
+	if n <= 2 {
+		r.Violation(sig, witness)
+	}
+}
+
 // ---------------------------------------------------------------------------
 // Shadow log.
 
@@ -298,10 +318,10 @@ func (h *c10Hub) observeRetention(node ch.NodeID, site string, load func() (stor
 	h.obsMu.Unlock()
 	h.retentionObs.Add(1)
 	if rs.LocalRetentionThroughSeq < prevL {
-		h.r.Violation("retention-boundary-decreased:store-local:"+site, map[string]any{"node": node, "before": prevL, "after": rs.LocalRetentionThroughSeq, "events": h.tail(25)})
+		c10V(h.r, "retention-boundary-decreased:store-local:"+site, map[string]any{"node": node, "before": prevL, "after": rs.LocalRetentionThroughSeq, "events": h.tail(25)})
 	}
 	if rs.PhysicalRetentionThroughSeq < prevP {
-		h.r.Violation("retention-boundary-decreased:store-physical:"+site, map[string]any{"node": node, "before": prevP, "after": rs.PhysicalRetentionThroughSeq, "events": h.tail(25)})
+		c10V(h.r, "retention-boundary-decreased:store-physical:"+site, map[string]any{"node": node, "before": prevP, "after": rs.PhysicalRetentionThroughSeq, "events": h.tail(25)})
 	}
 	if rs.PhysicalRetentionThroughSeq > rs.LocalRetentionThroughSeq {
 		h.r.Count("note.physical_above_local", 1)
@@ -473,10 +493,10 @@ func (s *c10Store) TrimMessagesThrough(ctx context.Context, through uint64, opts
 	if res.Deleted > 0 {
 		h.trimsDeleting.Add(1)
 		if deletedThrough > through {
-			h.r.Violation("trim-deleted-above-requested-boundary", map[string]any{"node": node, "through": through, "deleted_through": deletedThrough, "events": h.tail(25)})
+			c10V(h.r, "trim-deleted-above-requested-boundary", map[string]any{"node": node, "through": through, "deleted_through": deletedThrough, "events": h.tail(25)})
 		}
 		if deletedThrough > rsAfter.LocalRetentionThroughSeq {
-			h.r.Violation("trim-deleted-above-adopted-boundary", map[string]any{"node": node, "deleted_through": deletedThrough, "local_retention": rsAfter.LocalRetentionThroughSeq, "events": h.tail(25)})
+			c10V(h.r, "trim-deleted-above-adopted-boundary", map[string]any{"node": node, "deleted_through": deletedThrough, "local_retention": rsAfter.LocalRetentionThroughSeq, "events": h.tail(25)})
 		}
 		bound := stAfter.CheckpointHW
 		which := "checkpoint-hw"
@@ -484,7 +504,7 @@ func (s *c10Store) TrimMessagesThrough(ctx context.Context, through uint64, opts
 			bound, which = stAfter.LEO, "leo"
 		}
 		if deletedThrough > bound {
-			h.r.Violation("trim-above-local-watermark:"+which, map[string]any{
+			c10V(h.r, "trim-above-local-watermark:"+which, map[string]any{
 				"node": node, "requested_through": through, "deleted_through": deletedThrough, "deleted": res.Deleted,
 				"checkpoint_hw_before": stBefore.CheckpointHW, "leo_before": stBefore.LEO,
 				"checkpoint_hw_after": stAfter.CheckpointHW, "leo_after": stAfter.LEO,
@@ -514,7 +534,7 @@ func (s *c10Store) TrimMessagesThrough(ctx context.Context, through uint64, opts
 				if fst.LEO == 0 {
 					kind = "follower-leo-0"
 				}
-				h.r.Violation("leader-trim-above-isr-follower-leo:"+kind, map[string]any{
+				c10V(h.r, "leader-trim-above-isr-follower-leo:"+kind, map[string]any{
 					"leader": node, "follower": fnode, "follower_durable_leo_after_trim": fst.LEO,
 					"requested_through": through, "deleted_through": deletedThrough, "deleted": res.Deleted,
 					"leader_leo": stAfter.LEO, "leader_checkpoint_hw": stAfter.CheckpointHW, "isr": isr, "events": h.tail(40)})
